@@ -58,17 +58,17 @@ pub const ALL: &[&str] = &["C01", "C02", "C03", "C04", "C05", "C06", "C07", "C09
 pub fn budget(id: &str, thorough: bool) -> (u64, usize) {
 	match (id, thorough) {
 		("C06", false) => (120, 70),
-		("C06", true) => (600, 90),
+		("C06", true) => (300, 90),
 		("C09", false) => (160, 160),
-		("C09", true) => (3000, 400),
+		("C09", true) => (400, 400),
 		("C10", false) => (160, 40),
-		("C10", true) => (3000, 120),
+		("C10", true) => (160, 120),
 		("C20", false) => (48, 70),
-		("C20", true) => (600, 90),
+		("C20", true) => (120, 90),
 		("C13", false) => (160, 90),
-		("C13", true) => (3000, 140),
+		("C13", true) => (2000, 140),
 		(_, false) => (160, 45),
-		(_, true) => (3000, 60),
+		(_, true) => (1000, 60),
 	}
 }
 
